@@ -3,6 +3,7 @@
 # Like try_patch.sh, but without touching /repo: the change is applied to a scratch git worktree of /repo's
 # HEAD (VERIF_REPO points the checks at it). For iterating while /repo is busy; the stored results come from
 # try_patch.sh / run_seeded.sh, which patch /repo itself.   VERIF_HOME = the /verif copy to run (default /verif)
+export VERIF_EVIDENCE_DIR=${VERIF_EVIDENCE_DIR:-/tmp/verif-evidence-patched}
 P=$(readlink -f "$1"); TIER=$2; shift 2
 H=${VERIF_HOME:-/verif}
 WT=${VERIF_WT:-/dev/shm/mrepo.$$}
